@@ -101,9 +101,11 @@ func H_C02_plan_leaf() {
 var planVal2 = ref.Opts{Kinds: ref.KNil | ref.KFloat, ConcFloats: true}
 var planDoc2 = ref.Opts{Kinds: ref.KNil | ref.KFloat}
 
-//verif:harness props=C02,C20 tier=quick bounds="planner ranges for every criteria tree of depth <= 1 (Not/And/Or over 11 leaf operators on x or y) with literal operands nil/float{-1.5,0,2.5}; index sets {x},{y},{x,y}; document fields absent/nil/float64 (symbolic)"
+//verif:harness props=C02,C20 tier=quick bounds="planner ranges for every criteria tree of depth <= 1 (Not/And/Or over 11 leaf operators on x or y) with literal operands nil/float{0,2.5}; index sets {x},{y},{x,y}; document fields absent/nil/float64 (symbolic)"
 func H_C02_plan_tree1() {
-	crit := genPlanTree("c", 1, []string{"x", "y"}, planVal2, false)
+	lits := planVal2
+	lits.TwoFloats = true
+	crit := genPlanTree("c", 1, []string{"x", "y"}, lits, false)
 	idx := [][]string{{"x"}, {"y"}, {"x", "y"}}[nd.Choice("indexes", 3)]
 	planSound(crit, idx, genFields("d", planDoc2, "x", "y"))
 	nd.Reach("end")
